@@ -587,6 +587,8 @@ def check_unpaid_growth(chk, prog, fns, edges, label):
                 continue
             n += 1
             names = [x for _b, t in calls for x in (callee_of(t), t.get("callee") or "")]
+            # closures built inside the loop run inside it (handed to an adaptor such as try_for_each)
+            names += [st["def"] for b, _i, st in fn.stmts() if b in body and st.get("s") == "assign" and st.get("rv") == "agg" and st.get("ak") == "closure" and st.get("def")]
             a = [x for x in names if is_a(x)]
             r = any(is_r(x) for x in names)
             chk.ob("R-ALLOC", p, not a or r, "range-driven loop: allocations inside it are paid for by a stream read in the same iteration" if not a else
